@@ -1,9 +1,9 @@
 From Coq Require Extraction ExtrOcamlBasic.
-From Rpgp Require Import Base.Octets Base.Res Aead.Seipd2 Sym.Cfb Kdf.Kdf Key.Lock Io.Emitter Sym.Seipd1EncMachine.
+From Rpgp Require Import Base.Octets Base.Res Aead.Seipd2 Sym.Cfb Kdf.Kdf Key.Lock Io.Emitter Sym.Seipd1EncMachine Aead.Seipd2EncMachine.
 Extraction Language OCaml.
 Separate Extraction Byte.to_N Byte.of_N
   Seipd2.seipd2_enc Seipd2.seipd2_dec Seipd2.derive Seipd2.info_of Seipd2.chunk_len Seipd2.key_size Seipd2.nonce_size
   Cfb.cfb_enc Cfb.cfb_dec Cfb.seipd1_enc Cfb.seipd1_dec Cfb.zeros_n
   Kdf.decode_count Kdf.s2k_derive Kdf.s2k_iterated_code Kdf.s2k_preimage Kdf.hmac Kdf.hkdf Kdf.kw_wrap Kdf.kw_unwrap
   Kdf.ecdh_param Kdf.ecdh_kdf Kdf.ecdh_pad Kdf.ecdh_unpad Kdf.sum16 Kdf.pkesk_v3_plain
-  Kdf.skesk6_info Kdf.keylock_info Lock.lock_aead Lock.aead_info Lock.aead_ad Seipd1EncMachine.enc_run.
+  Kdf.skesk6_info Kdf.keylock_info Lock.lock_aead Lock.aead_info Lock.aead_ad Seipd1EncMachine.enc_run Seipd2EncMachine.a2_run.
